@@ -1,90 +1,17 @@
-//! Counterexample search / replay on the REAL crates (DESIGN §2.6). Reporting aid only: never turns a failed
-//! obligation into a pass. usage: cex <PROPERTY> <function-name> [--replay '<json input>']
+//! Counterexample search / replay on the REAL crates (DESIGN §2.6): executable forms of the contracts, run over a
+//! small exhaustive scope plus seeded random inputs. A found input is a genuine failing input of the real code; finding
+//! none proves nothing. usage: cex <PROPERTY> <function-name> [--replay '<json input>']   (env VERIF_SEED)
 //! prints one JSON line {"found":bool, "input":..., "observed":..., "required":..., "input_signature":...}
-use jj_lib::merge::{trivial_merge, Merge, SameChange};
-use serde_json::json;
-
-fn sc(vals: &[u8], v: u8) -> i32 {
-    vals.iter().enumerate().map(|(i, x)| if *x == v { if i % 2 == 0 { 1 } else { -1 } } else { 0 }).sum()
-}
-fn rule(vals: &[u8], accept: bool) -> Option<u8> {
-    let mut nz: Vec<u8> = vec![];
-    for x in vals { if sc(vals, *x) != 0 && !nz.contains(x) { nz.push(*x); } }
-    if nz.len() == 1 { Some(nz[0]) }
-    else if nz.len() == 2 && accept { if sc(vals, nz[0]) > 0 { Some(nz[0]) } else { Some(nz[1]) } }
-    else { None }
-}
-/// all sequences of odd length <= max_len over alphabet 0..k
-fn seqs(max_len: usize, k: u8) -> Vec<Vec<u8>> {
-    let mut out = vec![];
-    let mut len = 1;
-    while len <= max_len {
-        let mut cur = vec![0u8; len];
-        loop {
-            out.push(cur.clone());
-            let mut i = 0;
-            loop {
-                if i == len { break; }
-                cur[i] += 1;
-                if cur[i] < k { break; }
-                cur[i] = 0;
-                i += 1;
-            }
-            if i == len { break; }
-        }
-        len += 2;
-    }
-    out
-}
-fn no_cross(vals: &[u8]) -> bool {
-    for (i, a) in vals.iter().enumerate() { for (j, b) in vals.iter().enumerate() { if i % 2 == 0 && j % 2 == 1 && a == b { return false; } } }
-    true
-}
-fn catch<T>(f: impl FnOnce() -> T + std::panic::UnwindSafe) -> Result<T, String> {
-    std::panic::catch_unwind(f).map_err(|e| e.downcast_ref::<String>().cloned().or_else(|| e.downcast_ref::<&str>().map(|s| s.to_string())).unwrap_or("panic".into()))
-}
-
-fn check_simplify(v: &[u8]) -> Option<serde_json::Value> {
-    let m = Merge::from_vec(v.to_vec());
-    let s = match catch(|| m.simplify()) { Ok(s) => s, Err(p) => return Some(json!({"observed": format!("panic: {p}"), "required": "no panic"})) };
-    let sv: Vec<u8> = s.iter().copied().collect();
-    for x in 0..4u8 { if sc(&sv, x) != sc(v, x) { return Some(json!({"observed": sv, "required": format!("signed count of {x} preserved ({} vs {})", sc(v, x), sc(&sv, x))})); } }
-    if !no_cross(&sv) { return Some(json!({"observed": sv, "required": "no value is both a side and a base after simplify"})); }
-    if sv.len() % 2 != 1 { return Some(json!({"observed": sv, "required": "odd length"})); }
-    let s2: Vec<u8> = s.simplify().iter().copied().collect();
-    if s2 != sv { return Some(json!({"observed": s2, "required": "simplify idempotent"})); }
-    if no_cross(v) && sv != v { return Some(json!({"observed": sv, "required": "already simplified input is unchanged"})); }
-    // update_from_simplified: write marker values, check they land on surviving positions only
-    let marked: Vec<u8> = (0..sv.len()).map(|i| 100 + i as u8).collect();
-    let u = match catch(|| Merge::from_vec(v.to_vec()).update_from_simplified(Merge::from_vec(marked.clone()))) { Ok(u) => u, Err(p) => return Some(json!({"observed": format!("panic: {p}"), "required": "update_from_simplified does not panic on an edit of simplify()"})) };
-    let uv: Vec<u8> = u.iter().copied().collect();
-    if uv.len() != v.len() { return Some(json!({"observed": uv, "required": "update_from_simplified keeps the length"})); }
-    let mut seen = vec![false; marked.len()];
-    for (i, x) in uv.iter().enumerate() {
-        if *x >= 100 { let k = (*x - 100) as usize; if seen[k] || k % 2 != i % 2 { return Some(json!({"observed": uv, "required": "each simplified term lands once, on a position of its own polarity"})); } seen[k] = true; }
-        else if *x != v[i] { return Some(json!({"observed": uv, "required": "positions outside the mapping are unchanged"})); }
-    }
-    if seen.iter().any(|s| !s) { return Some(json!({"observed": uv, "required": "every simplified term is written back"})); }
-    None
-}
-fn check_flatten(outer: &[Vec<u8>]) -> Option<serde_json::Value> {
-    let m = Merge::from_vec(outer.iter().map(|v| Merge::from_vec(v.clone())).collect::<Vec<_>>());
-    let f: Vec<u8> = match catch(|| m.flatten()) { Ok(f) => f.iter().copied().collect(), Err(p) => return Some(json!({"observed": format!("panic: {p}"), "required": "no panic"})) };
-    let total: usize = outer.iter().map(|v| v.len()).sum();
-    if f.len() != total { return Some(json!({"observed": f, "required": "length is the sum of inner lengths"})); }
-    for x in 0..4u8 {
-        let want: i32 = outer.iter().enumerate().map(|(i, v)| if i % 2 == 0 { sc(v, x) } else { -sc(v, x) }).sum();
-        if sc(&f, x) != want { return Some(json!({"observed": f, "required": format!("signed count of {x} == alternating sum of inner signed counts ({want})")})); }
-    }
-    None
-}
-fn check_trivial(v: &[u8], accept: bool) -> Option<serde_json::Value> {
-    let scg = if accept { SameChange::Accept } else { SameChange::Keep };
-    let got = match catch(|| trivial_merge(v, scg).copied()) { Ok(g) => g, Err(p) => return Some(json!({"observed": format!("panic: {p}"), "required": "no panic"})) };
-    let want = rule(v, accept);
-    if got != want { return Some(json!({"observed": format!("{got:?}"), "required": format!("{want:?} (cancellation rule)")})); }
-    None
-}
+mod util;
+mod p_merge;
+mod p_refs;
+mod p_matchers;
+mod p_gitrefs;
+mod p_diff;
+mod p_chash;
+mod p_text;
+mod p_repo;
+mod p_tables;
 
 fn main() {
     std::panic::set_hook(Box::new(|_| {}));
@@ -92,46 +19,18 @@ fn main() {
     let pid = args.get(1).map(|s| s.as_str()).unwrap_or("");
     let func = args.get(2).map(|s| s.as_str()).unwrap_or("");
     let replay = args.iter().position(|a| a == "--replay").and_then(|i| args.get(i + 1)).map(|s| serde_json::from_str::<serde_json::Value>(s).expect("replay json"));
-    let emit = |input: serde_json::Value, mut r: serde_json::Value, f: &str| -> ! {
-        r["found"] = json!(true);
-        r["function"] = json!(f);
-        r["input_signature"] = json!(input.to_string());
-        r["input"] = input;
-        println!("{}", r);
-        std::process::exit(0)
+    let seed: u64 = std::env::var("VERIF_SEED").ok().and_then(|s| s.parse().ok()).unwrap_or(0);
+    let r = match pid {
+        "C01" | "C02" => p_merge::run(pid, func, replay, seed),
+        "C12" | "C13" => p_refs::run(pid, func, replay, seed),
+        "C30" | "C31" => p_matchers::run(pid, func, replay, seed),
+        "C33" => p_gitrefs::run(pid, func, replay, seed),
+        "C03" | "C04" => p_diff::run(pid, func, replay, seed),
+        "C16" => p_chash::run(pid, func, replay, seed),
+        "C44" => p_text::run(pid, func, replay, seed),
+        "C18" | "C10" | "C19" | "C20" | "C11" => p_repo::run(pid, func, replay, seed),
+        "C21" => p_tables::run(pid, func, replay, seed),
+        _ => util::none(&format!("no executable contract registered for {pid}")),
     };
-    match pid {
-        "C01" | "C02" | "C12" | "C04" | "C13" => {
-            if let Some(inp) = &replay {
-                let kind = inp["kind"].as_str().unwrap_or("");
-                let r = match kind {
-                    "simplify" => check_simplify(&serde_json::from_value::<Vec<u8>>(inp["terms"].clone()).unwrap()),
-                    "flatten" => check_flatten(&serde_json::from_value::<Vec<Vec<u8>>>(inp["outer"].clone()).unwrap()),
-                    "trivial_merge" => check_trivial(&serde_json::from_value::<Vec<u8>>(inp["terms"].clone()).unwrap(), inp["accept"].as_bool().unwrap()),
-                    _ => None,
-                };
-                match r { Some(r) => emit(inp.clone(), r, kind), None => { println!("{}", json!({"found": false, "note": "replayed input satisfies the executable contract on the current build"})); return; } }
-            }
-            let want_merge = pid == "C01" || func.contains("simplif") || func.contains("flatten") || func.contains("mapping");
-            let want_trivial = pid != "C01" || func.contains("trivial");
-            if want_merge {
-                for v in seqs(7, 3) { if let Some(r) = check_simplify(&v) { emit(json!({"kind": "simplify", "terms": v}), r, "Merge::simplify/update_from_simplified"); } }
-                let inner = seqs(3, 3);
-                for a in &inner { for b in &inner { for c in &inner {
-                    let o = vec![a.clone(), b.clone(), c.clone()];
-                    if let Some(r) = check_flatten(&o) { emit(json!({"kind": "flatten", "outer": o}), r, "Merge::flatten"); }
-                } } }
-                let inner5 = seqs(1, 2);
-                for a in &inner5 { for b in &inner { for c in &inner5 { for d in &inner { for e in &inner5 {
-                    let o = vec![a.clone(), b.clone(), c.clone(), d.clone(), e.clone()];
-                    if let Some(r) = check_flatten(&o) { emit(json!({"kind": "flatten", "outer": o}), r, "Merge::flatten"); }
-                } } } } }
-            }
-            if want_trivial {
-                for v in seqs(7, 3) { for accept in [false, true] { if let Some(r) = check_trivial(&v, accept) { emit(json!({"kind": "trivial_merge", "terms": v, "accept": accept}), r, "trivial_merge"); } } }
-            }
-            println!("{}", json!({"found": false, "note": "scope exhausted: term lists of odd length <= 7 over 3 values; 3-way merges of merges of length <= 3", "scope": "small"}));
-        }
-        _ => println!("{}", json!({"found": false, "note": format!("no executable contract registered for {pid}")})),
-    }
+    println!("{}", r);
 }
